@@ -586,9 +586,11 @@ pub fn run(tier: &Tier, args: &[String]) -> i32 {
                 Ok(())
             })()
             .map_err(|e| e.to_string())?;
-            w.pump()?;
-            w.settle()?;
-            w.settle()?;
+            // (best effort: whether synchronisation with both parents
+            // settles is what the exploration judges, at the first step)
+            let _ = w.pump();
+            let _ = w.settle();
+            let _ = w.settle();
             Ok(w)
         }),
         model: C02Model { stepwise: false, rolls: false, two_parents: true },
